@@ -215,6 +215,24 @@ def real_part(tier, pid, focus, verdict):
                 break
     val = validate_runs(results, root)
     n_cmds = sum(len(r['cmds']) for r in results)
+    locks_cov = {}
+    if focus == 'sched':
+        # the deadlock-freedom discipline of the second phase (no blocking lock wait while holding a target lock or
+        # owing a result) is checked on the lock events of the same executions
+        import multicheck
+        lv = multicheck.validate([r for r in results if 'pj' in r], root, 'TraceLocks',
+                                 lambda evs, res: tracecheck.locks_run(evs), ['Accepted', 'Mutex'])
+        locks_cov = {'TraceLocks_events': lv['events'], 'TraceLocks_accepted': lv['accepted']}
+        for (r, inv, detail) in lv['violations']:
+            import re
+            m = re.search(r'bad = "([^"]*)"', detail)
+            why = m.group(1) if m else inv
+            if 'blocking lock wait' not in why:
+                continue          # the other rules of TraceLocks are C06's subject
+            rp = os.path.join(r['dir'], 'tracelocks_violation.txt')
+            with open(rp, 'w') as f:
+                f.write(detail)
+            verdict.violation('trace:TraceLocks:%s' % why, r['dir'], 'TraceLocks: %s (scenario %s)\n%s' % (why, json.dumps(r['sc']), detail[-1200:]))
     for r in results:
         for pb in r['problems']:
             kind = pb.split(':')[1].strip().split(' ')[0] if ':' in pb else 'run'
@@ -235,7 +253,7 @@ def real_part(tier, pid, focus, verdict):
     ok_dirs = [r['dir'] for r in results if not r['problems'] and not any(v[0] is r for v in val['violations'])]
     for dd in ok_dirs:
         shutil.rmtree(dd, ignore_errors=True)
-    return {'cheat_scenarios_that_cheated': n_cheat, 'real_builds': len(results), 'real_commands': n_cmds, 'trace_events': val['events'],
+    return {**locks_cov, 'cheat_scenarios_that_cheated': n_cheat, 'real_builds': len(results), 'real_commands': n_cmds, 'trace_events': val['events'],
             'trace_segments': val['segments'], 'traces_validated_against_impl': val['accepted'],
             'trace_invariants': TRACE_INV, 'sample_real': sample,
             'configs': {'inherited': sum(1 for s in scs if s['inherit']),
@@ -276,6 +294,42 @@ def cheat_exit_scenario(root, bindir, verdict):
     with open(os.path.join(d, 'scenario.json'), 'w') as f:
         json.dump({'scenario': sc, 'files': files, 'commands': [r], 'problems': res['problems'], 'cheated': cheated}, f, indent=1)
     return res
+
+
+def apalache_part(d, verdict, pid):
+    """Conservation as an inductive invariant over arbitrary counter values (spec/TokInd.tla, Apalache)"""
+    import subprocess
+    wd = os.path.join(d, 'apalache')
+    shutil.rmtree(wd, ignore_errors=True)
+    os.makedirs(wd)
+    for f in ('TokInd.tla', 'RedoTok.tla'):
+        shutil.copy(os.path.join(common.SPEC, f), wd)
+    runs = [('base', ['--init=Init', '--length=0'], 'NoError'),
+            ('step', ['--init=IndInit', '--length=1'], 'NoError'),
+            ('pinned_exit', ['--init=IndInit', '--next=NextPinned', '--length=1'], 'Error')]
+    out = {}
+    tool = []
+    for name, args, want in runs:
+        t0 = time.time()
+        try:
+            r = subprocess.run(['apalache-mc', 'check', '--cinit=ConstInit', '--inv=IndInv', '--out-dir=' + os.path.join(wd, 'out_' + name)]
+                               + args + ['TokInd.tla'], cwd=wd, stdout=subprocess.PIPE, stderr=subprocess.STDOUT, text=True, timeout=1200)
+            txt = r.stdout
+        except subprocess.TimeoutExpired:
+            txt = 'timeout'
+        import re
+        m = re.search(r'The outcome is: (\w+)', txt)
+        got = m.group(1) if m else 'unknown'
+        out[name] = {'outcome': got, 'wall_s': round(time.time() - t0, 1)}
+        if got != want:
+            if name == 'pinned_exit' or got == 'unknown':
+                tool.append('apalache %s: outcome %s, expected %s\n%s' % (name, got, want, txt[-1500:]))
+            else:
+                rp = os.path.join(wd, 'apalache_%s.txt' % name)
+                open(rp, 'w').write(txt[-20000:])
+                verdict.violation('apalache:%s' % name, rp, 'TokInd: the conservation invariant is not inductive (%s): %s' % (name, got))
+    shutil.rmtree(os.path.join(wd, '_apalache-out'), ignore_errors=True)
+    return out, tool
 
 
 def classify_key(pb):
